@@ -123,7 +123,7 @@ Theorem C02_splice_in_histories :
          WRep c w st ->
          ufuse (wuw w) = None ->
          sp_splice c st (unext (wuw w)) vid sb eb pat f rk n wrong_at claimed = Some r ->
-         adm_splice c w vid sb eb n ->
+         adm_splice c w vid sb eb claimed ->
          res_matches c w (exec c (OSplice a vid sb eb pat f rk n wrong_at claimed) w) r.
 Proof. exact exec_splice. Qed.
 
